@@ -40,7 +40,7 @@
 \*                    format: unspecified (error or JSON)
 \*     RecordFunc     200 and the record as JSON including its metadata (_meta with the key), serialised
 \*                    while the record is locked, unlocked afterwards; a nil record: 204 or 404, not a failure
-\*     HandlerFunc    whatever the handler writes
+\*     HandlerFunc    whatever the handler writes (TextResponse: 200, text/plain, the text and a newline)
 \*     The Content-Type of a successful answer is the endpoint's MimeType unless the function set one through
 \*     Request.ResponseHeader; headers set there are sent.  HEAD: like GET without body (200 or 204).
 \*  Where this text is silent the model allows every outcome (sets of statuses / content types / bodies).
@@ -168,7 +168,10 @@ Served(e, q) ==
         none == q.beh \in {"empty", "nil"}
         F(sts, cts, bodies, xhs, rls) == Class(sts, cts, bodies, e.p, InputSet(q), {"na"}, vars, xhs, rls)
     IN  IF e.kind = "handler" THEN
-            {Class(IF isErr THEN {q.code} ELSE {200}, AnyCT, IF none THEN {"empty"} ELSE B({"hbody"}),
+            \* the harness handler: "nl" answers with api.TextResponse (request.go), errors write the code and a
+            \* body, "empty" / "nil" write nothing, anything else writes a body
+            {Class(IF isErr THEN {q.code} ELSE {200}, IF q.beh = "nl" THEN CT({"text"}) ELSE AnyCT,
+                   IF none THEN {"empty"} ELSE IF q.beh = "nl" THEN B({"msgnl"}) ELSE B({"hbody"}),
                    e.p, InputSet(q), InputSet(q), vars, XH, {"na"})}
         ELSE IF isErr THEN
             {F({errcode}, CT({"text"} \cup (IF q.ct THEN {"fn"} ELSE {})), B({"errtext"}), XHany, {"na"})}
